@@ -23,6 +23,7 @@ type IdP struct {
 
 	ClientID, ClientSecret string
 	TokenTTL               time.Duration
+	TokenChars             string // spliced into every token this provider issues (token alphabets differ between providers)
 
 	Users  map[string]*IdPUser
 	codes  map[string]*idpCode
@@ -272,7 +273,7 @@ func (p *IdP) scripted(endpoint string) *Answer {
 func (p *IdP) issueLocked(email string) *idpToken {
 	p.serial++
 	tag := fmt.Sprintf("%06d", p.serial)
-	t := &idpToken{email: email, access: "AT" + tag + "x" + strings.Repeat("a", 24), refresh: "RT" + tag + "x" + strings.Repeat("r", 24), expires: time.Now().Add(p.TokenTTL)}
+	t := &idpToken{email: email, access: "AT" + tag + "x" + p.TokenChars + strings.Repeat("a", 24), refresh: "RT" + tag + "x" + p.TokenChars + strings.Repeat("r", 24), expires: time.Now().Add(p.TokenTTL)}
 	p.access[t.access] = t
 	p.refr[t.refresh] = t
 	return t
@@ -647,7 +648,7 @@ func (p *IdP) token(rw http.ResponseWriter, req *http.Request) {
 			return
 		}
 		p.serial++
-		nt := &idpToken{email: old.email, access: fmt.Sprintf("AT%06dx%s", p.serial, strings.Repeat("b", 24)), refresh: old.refresh, expires: time.Now().Add(p.TokenTTL)}
+		nt := &idpToken{email: old.email, access: fmt.Sprintf("AT%06dx%s%s", p.serial, p.TokenChars, strings.Repeat("b", 24)), refresh: old.refresh, expires: time.Now().Add(p.TokenTTL)}
 		p.access[nt.access] = nt
 		writeJSON(rw, 200, map[string]interface{}{"access_token": nt.access, "token_type": "Bearer", "expires_in": int(p.TokenTTL / time.Second)})
 	default:
